@@ -684,7 +684,20 @@ mod for_trait_object {
             return Err(E::invalid_slice_layout());
         };
 
-        match bump.prepare_allocation(layout) {
+        if bump.is_claimed() {
+            return Err(E::claimed());
+        }
+
+        // Preparing an allocation can make a later chunk the current one.
+        // We go back to where we were so the free space of the current chunk is not wasted,
+        // just like the statically typed `reserve`. A newly allocated chunk stays available.
+        let checkpoint = bump.checkpoint();
+        let result = bump.prepare_allocation(layout);
+
+        // SAFETY: no allocations were made since the checkpoint was created and the allocator is not claimed
+        unsafe { bump.reset_to(checkpoint) };
+
+        match result {
             Ok(_) => Ok(()),
             Err(AllocError) => Err(E::allocation(layout)),
         }
